@@ -1,5 +1,6 @@
-\* EXPECT family: every program of up to 4 source lines over the 11 statements of ExpAlpha (EXPECT with one / two / two
-\* equal numbers, ENDEXPECT, the two faulty statements they announce, a user ERROR, IF 0 / ENDIF, data, END)
+\* EXPECT family: every program of up to 4 source lines over the 14 statements of ExpAlpha (EXPECT with one / two / two
+\* equal numbers, ENDEXPECT, the two faulty statements they announce, a user ERROR, IF 0 / ENDIF, data, END, IFDEF CX /
+\* IFNDEF CX, CX EQU 1)
 CONSTANTS Segs = {1, 2} StructSeg = 11 OffSet = {} OffAt = 0 Family = "exp" BodyLen = 0 MaxLen = 4 MaxSteps = 14
 INIT Init
 NEXT GenNext
